@@ -99,6 +99,51 @@ def generate(repo):
         except Exception as ex:
             items[flag] = "miss:%s" % ex
 
+    # is every read-modify-write of chunk records done under the one chunk lock?
+    #   id 0 BlobWriter::store_chunk   1 BlobWriter::finish (publish + retire the in-flight record)
+    #      2 integrity::delete_artifact 3 gc_cycle (per examined chunk) 4 full_gc  5 integrity::repair
+    locked = {}
+    LOCK = r"chunk_lock\s*\(\s*\)"
+
+    def first_stmt_locks(body):
+        return re.match(r"\s*let\s+_\w*\s*=\s*(?:crate::gc::)?" + LOCK + r"\s*;", body) is not None
+
+    def lock_item(i, name, fn):
+        try:
+            locked[i] = bool(fn())
+            items["locked.%s" % name] = "translated"
+        except Exception as ex:
+            locked[i] = False
+            items["locked.%s" % name] = "miss:%s" % ex
+
+    def _streaming():
+        st = strip_comments(read(repo, "tensor_blob/src/streaming.rs"))
+        return st[re.search(r"impl\s+BlobWriter\b", st).end():]
+
+    lock_item(0, "store_chunk", lambda: first_stmt_locks(find_fn(_streaming(), "store_chunk")[1]))
+
+    def finish_locked():
+        body = find_fn(_streaming(), "finish")[1]
+        # a block that takes the lock and, inside it, both puts the artifact record and deletes the writer record
+        for m in re.finditer(r"\{\s*let\s+_\w*\s*=\s*" + LOCK + r"\s*;", body):
+            from rs2v import match_brace
+            end = match_brace(body, m.start())
+            blk = body[m.start():end]
+            if re.search(r"store\s*\.\s*put\s*\(\s*&?meta_key", blk) and re.search(r"store\s*\.\s*delete\s*\(", blk) and "WRITER_PREFIX" in blk:
+                return True
+        return False
+    lock_item(1, "finish", finish_locked)
+    lock_item(2, "delete_artifact", lambda: first_stmt_locks(find_fn(strip_comments(read(repo, "tensor_blob/src/integrity.rs")), "delete_artifact")[1]))
+
+    def gc_cycle_locked():
+        body = find_fn(gc, "gc_cycle")[1]
+        m = re.search(r"for\s+chunk_key\s+in\s+[^{]+\{", body)
+        return first_stmt_locks(body[m.end():])
+    lock_item(3, "gc_cycle", gc_cycle_locked)
+    lock_item(4, "full_gc", lambda: first_stmt_locks(find_fn(gc, "full_gc")[1]))
+    lock_item(5, "repair", lambda: first_stmt_locks(find_fn(strip_comments(read(repo, "tensor_blob/src/integrity.rs")), "repair")[1]))
+    lock_arms = "\n".join("  | %d => %s" % (i, "true" if locked.get(i) else "false") for i in range(6))
+
     text = HEADER + (
         "From NV.Common Require Import Base.\nOpen Scope N_scope.\n\n"
         "(* tensor_blob/src/gc.rs  gc_cycle: the test that guards store.delete *)\n"
@@ -111,7 +156,10 @@ def generate(repo):
         "(* full_gc / integrity::repair also count the chunk keys registered by unfinished writers *)\n"
         "Definition gen_fgc_counts_writers : bool := %s.\n"
         "Definition gen_repair_counts_writers : bool := %s.\n"
+        "(* does the function hold chunk_lock() over its read-modify-write of chunk records?\n"
+        "   0 BlobWriter::store_chunk  1 BlobWriter::finish (publish)  2 delete_artifact  3 gc_cycle (per chunk)  4 full_gc  5 repair *)\n"
+        "Definition gen_locked (f : N) : bool :=\n  match f with\n%s\n  | _ => false\n  end.\n"
         % (terms["collectable"], terms["min_created"], terms["rdec"], terms["rinc"],
-           flags["fgc_counts_writers"], flags["repair_counts_writers"])
+           flags["fgc_counts_writers"], flags["repair_counts_writers"], lock_arms)
     )
     return text, items
